@@ -73,6 +73,23 @@ def run(ctx):
         ok = all(x in ps for x in need)
         ctx.ob("U2", nk.defp, "binding-key-components", loc(nk.sp), ok,
                f"key derives from parameters {ps}; the wire format " + ("carries" if carries_target else "does NOT carry") + " the per-datagram target, so the key must include " + ("the sender" if carries_target else "sender and target (one stream per target)"))
+        # ... and the key part that stands for the target must *identify* it: where the wire format does not carry the per-datagram target the
+        # binding's key is the only thing that separates two targets of one application. A digest, a rendering or any other many-to-one
+        # function of the target merges two targets into one binding (the second one's datagrams are sent to the first).
+        if not carries_target and 2 in ps:
+            IDENT = ("Clone::clone", "ToOwned::to_owned", "Into::into", "From::from", "AsRef::as_ref", "Deref::deref", "Borrow::borrow", "ToOwned::clone_into")
+            _, kcalls, _ = nk.slice_back([0])
+            lossy = []
+            for (kb, kc, kt) in kcalls:
+                if kc.name in IDENT:
+                    continue
+                arg_locals = [op_place(a)[0] for a in kt["args"] if op_place(a)]
+                if arg_locals and 2 in nk.slice_back(arg_locals)[0]:
+                    lossy.append(kc.name)
+            ctx.ob("U2", nk.defp, "binding-key-identifies-the-target", loc(nk.sp), not lossy,
+                   "the target reaches the binding key through copies only" if not lossy else
+                   f"the target reaches the binding key through {sorted(set(lossy))}: not an identity - two different targets of one application can get the same key, share one "
+                   "binding (whose stream was opened for the first target) and the second target's datagrams are delivered to the first")
     # binding lookup key in the client loop
     from .common import outermost
     loops = [b for b in bodies if b.defp.startswith("octo_squirrel_client") and any(c.name == "LruCache::entry" for (_, c, _) in b.calls())]
